@@ -198,8 +198,24 @@ int main(int argc, char** argv) {
   std::string line;
   while (std::getline(in, line)) {
     std::istringstream ls(line);
-    std::string kind, a, b;
-    ls >> kind >> a >> b;
+    std::string kind, a, b, c;
+    ls >> kind >> a >> b >> c;
+    if (kind == "R") {
+      std::cout << "BEGIN R " << a << std::endl;
+      std::vector<uint8_t> d1 = (b == "-") ? std::vector<uint8_t>() : HX(b);
+      std::vector<uint8_t> d2 = (c == "-") ? std::vector<uint8_t>() : HX(c);
+      @ROOT@ obj;
+      try { ByteBuf b1(d1); obj.decode(b1); } catch (const std::exception&) {}
+      try {
+        ByteBuf b2(d2);
+        obj.decode(b2);
+        std::cout << "DEC " << a << " " << b2.readable_bytes() << " " << @DUMPROOT@(obj) << "\n";
+      } catch (const std::exception& e) {
+        std::cout << "DECERR " << a << " " << clean(e.what()) << "\n";
+      }
+      std::cout.flush();
+      continue;
+    }
     if (kind == "E") {
       int i = std::stoi(a);
       std::cout << "BEGIN E " << i << std::endl;
